@@ -115,6 +115,18 @@ def w_cases(tier):
     four = {'gen': 'decks', 'T': 60, 'decks': [{'h': 1000.0, 'n': 15, 'where': 'first'}, {'h': 3000.0, 'n': 30, 'where': 'last'},
                                                 {'h': 6000.0, 'n': 45, 'where': 'first'}, {'h': 9000.0, 'n': 60}]}
     cases.append({'fam': 'W', 'name': 'four', 'scene': four, 'variants': [{}, {'MSA': 9000.0}, {'MSA': 6000.0, 'MSA_HIT_BUFFER': 0}]})
+    # sets overlapping in height range (order by base != order by lowest hit)
+    from . import _deckfam
+    for name, spec in _deckfam.streak_scenes(tier):
+        cases.append({'fam': 'W', 'name': name, 'scene': spec, 'variants': [{}, {'MSA': 1300.0, 'MSA_HIT_BUFFER': 500.0}, {'MAX_HITS_OKTA0': 0}]})
+    # climbing / descending decks whose base differs from their mean, minimum and maximum: MSA at every position relative to them
+    for pat in ('rampup', 'rampdown'):
+        deck = {'gen': 'decks', 'T': 40, 'decks': [{'h': 10000.0, 'n': 40, 'pattern': pat}]}
+        variants = []
+        for lb, perc in ((100, 5), (25, 5), (25, 100), (100, 100), (50, 50)):
+            for msa in (9990.0, 10000.0, 10010.0, 10100.0, 10150.0, 10190.0, 10200.0, 10210.0):
+                variants.append({'MSA': msa, 'MSA_HIT_BUFFER': 1500.0, 'BASE_LVL_LOOKBACK_PERC': lb, 'BASE_LVL_HEIGHT_PERC': perc, 'MAX_HITS_OKTA0': 3})
+        cases.append({'fam': 'W', 'name': 'msa-vs-' + pat, 'scene': deck, 'variants': variants})
     return cases
 
 
